@@ -41,8 +41,8 @@ var (
 	Local = time.Local
 )
 
-func Unix(sec, nsec int64) Time            { return time.Unix(sec, nsec) }
-func UnixMilli(ms int64) Time              { return time.UnixMilli(ms) }
+func Unix(sec, nsec int64) Time                { return time.Unix(sec, nsec) }
+func UnixMilli(ms int64) Time                  { return time.UnixMilli(ms) }
 func ParseDuration(s string) (Duration, error) { return time.ParseDuration(s) }
 
 // ---------------------------------------------------------------- the clock
